@@ -629,6 +629,11 @@ class Analysis:
                 V.append(Violation(prop, 'C02.spurious_exception' if prop == 'C02' else 'C03.blocking_emit_exception', m.done,
                                    'emit #%d of producer %d raised %r although no user function raised' % (m.k, m.pid, m.exc)))
                 return V
+        for e in self.ev:
+            if e[2] == 'restart_exc':
+                V.append(Violation(prop, 'C02.spurious_exception' if prop == 'C02' else 'C03.blocking_emit_exception', e[0],
+                                   'start()/stop() called on node %d of a running pipeline raised %r' % (e[3], e[4])))
+                return V
         for e in self.bg:
             V.append(Violation(prop, 'C02.spurious_exception' if prop == 'C02' else 'C03.blocking_emit_exception', e[0],
                                'an exception nobody raised surfaced inside the pipeline: %r' % (e[3:],)))
@@ -1179,6 +1184,8 @@ def reference_sinks(sc):
         if 'flush' in item:
             for v, m in ms[item['flush']].flush():
                 emit(item['flush'], v, m)
+        elif 'restart' in item:
+            pass            # (start() on a running pipeline changes nothing)
         else:
             emit(p['entry'], item['v'], ())
     return got
